@@ -1,4 +1,4 @@
-import Mimium.Proofs.ModRes
+import Mimium.Proofs.ModResSpec
 /-!
 # C17 — Module privacy and name resolution
 
@@ -32,31 +32,6 @@ after their statement) and evaluation — both are only exercised by the corresp
 -/
 namespace Mimium.ModRes
 
-/-- the two forms a reference takes after parsing -/
-inductive Ref where
-  | ident (x : Name)
-  | path (segs : List Name)
-deriving DecidableEq, Repr
-
-/-- the parser produces `QualifiedVar` only for two or more segments -/
-def Ref.wf : Ref → Bool
-  | .ident _ => true
-  | .path segs => decide (2 ≤ segs.length)
-
-def resolveRef (c : RCtx) : Ref → Sym × List Err
-  | .ident x => convertVar c [x]
-  | .path segs => convertQVar c segs
-
-/-- `sym` is a member of a module (its mangled name has a module part) that the tree declares without `pub` -/
-def PrivateMember (evs : List Ev) (sym : Sym) : Prop := (sym, false) ∈ fnDecls evs ∧ 2 ≤ sym.length
-
-/-- the statement of C17, clause 1, for one tree: an accepted reference never reaches a private member of a
-module that is not an ancestor-or-self of the use site's module -/
-def NoPrivateRoute (evs : List Ev) : Prop :=
-  ∀ (known : Sym → Bool) (cur : List Name) (locals : List (List Sym)) (r : Ref) (sym : Sym),
-    r.wf = true → resolveRef ⟨lowerInfo evs, known, cur, locals⟩ r = (sym, []) →
-    PrivateMember evs sym → sym.dropLast <+: cur
-
 /-- **no private route**, for every tree without re-exports and without duplicate definitions, every position,
 every reference form. -/
 theorem C17_no_private_route_partial (evs : List Ev) (hre : noPubUse evs = true)
@@ -66,7 +41,7 @@ theorem C17_no_private_route_partial (evs : List Ev) (hre : noPubUse evs = true)
   cases r with
   | ident x => exact convertVar_sound ⟨lowerInfo evs, known, cur, locals⟩ x sym hres hv hlen
   | path segs =>
-    have h2 : 2 ≤ segs.length := by simpa [Ref.wf] using hwf
+    have h2 : 2 ≤ segs.length := Ref.wf_path hwf
     obtain ⟨hs, hp⟩ := convertQVar_sound ⟨lowerInfo evs, known, cur, locals⟩ segs sym h2 hres
     have hr2 : 2 ≤ (resolveQualifiedPath segs segs cur known).1.length := by
       have := resolveQualifiedPath_length segs cur known; omega
@@ -87,19 +62,11 @@ theorem C17_no_private_route_vismap (info : Info) (known : Sym → Bool) (cur : 
   cases r with
   | ident x => exact fun hv hl => convertVar_sound ⟨info, known, cur, locals⟩ x sym hres hv hl
   | path segs =>
-    exact convertQVar_sound ⟨info, known, cur, locals⟩ segs sym (by simpa [Ref.wf] using hwf) hres
+    exact convertQVar_sound ⟨info, known, cur, locals⟩ segs sym (Ref.wf_path hwf) hres
 
 /-! ### the unrestricted statement is false of the code (finding F12)
 
 Names: `1 = a`, `2 = secret`, `3 = b`, `0 = dsp`. -/
-
-/-- the names pass 1 collects for a flattened program -/
-def knownOf (evs : List Ev) : Sym → Bool := fun s => (collectDefined (chain .unit evs)).contains s
-
-/-- `mod a { fn secret(){7.0} }  mod b { pub use a::secret }  fn dsp(){ b::secret() }` -/
-def f12 : List Item :=
-  [.mod false 1 [.fn false 2 [] (.lit 7)], .mod false 3 [.use true [1, 2] .single],
-   .fn false 0 [] (.call (.qvar [3, 2]))]
 
 /-- F12: from the top level, `b::secret` is accepted and resolves to the private `a$secret`. -/
 theorem C17_no_private_route_refuted_reexport :
@@ -108,20 +75,10 @@ theorem C17_no_private_route_refuted_reexport :
     noPubUse (events f12) = false ∧ ((fnDecls (events f12)).map (·.1)).Nodup := by
   decide +kernel
 
-/-- a module can publish its own private member: `mod a { fn secret(){7.0}  pub use a::secret }`, then `a::secret` -/
-def f12self : List Item :=
-  [.mod false 1 [.fn false 2 [] (.lit 7), .use true [1, 2] .single], .fn false 0 [] (.call (.qvar [1, 2]))]
-
 theorem C17_no_private_route_refuted_self_reexport :
     resolveRef ⟨lowerInfo (events f12self), knownOf (events f12self), [], []⟩ (.path [1, 2]) = ([1, 2], []) ∧
     ([1, 2], false) ∈ fnDecls (events f12self) ∧ ¬ ([1, 2] : Sym).dropLast <+: [] := by
   decide +kernel
-
-/-- … and the same entry of the visibility map opens the wildcard route:
-`mod a { fn secret(){7.0}  pub use a::secret }  use a::*`, then plain `secret` -/
-def f12wild : List Item :=
-  [.mod false 1 [.fn false 2 [] (.lit 7), .use true [1, 2] .single], .use false [1] .wildcard,
-   .mod false 3 [.fn true 4 [] (.call (.var [2]))], .fn false 0 [] (.call (.qvar [3, 4]))]
 
 theorem C17_no_private_route_refuted_qualified_from_module :
     resolveRef ⟨lowerInfo (events f12wild), knownOf (events f12wild), [3], []⟩ (.path [1, 2]) = ([1, 2], []) ∧
@@ -133,6 +90,54 @@ theorem C17_no_private_route_false : ¬ ∀ evs : List Ev, NoPrivateRoute evs :=
   intro h
   have w := C17_no_private_route_refuted_reexport
   exact w.2.2.1 (h (events f12) (knownOf (events f12)) [] [] (.path [3, 2]) [1, 2] rfl w.1 ⟨w.2.1, by decide⟩)
+
+
+/-- **no private route**, for every tree whose re-exports are harmless — a class decidable per tree
+(`visFaithful`, `reexportsPublic` are `Bool`s): the visibility map agrees with the declarations, and no re-exported
+name leads to something marked private.  `C17_no_private_route_partial` is the syntactic special case. -/
+theorem C17_no_private_route_safe_reexports (evs : List Ev) (h1 : visFaithful evs = true)
+    (h2 : reexportsPublic evs = true) : NoPrivateRoute evs := by
+  intro known cur locals r sym hwf hres ⟨hdecl, hlen⟩
+  have hv : get? (lowerInfo evs).vis sym = some false := by
+    have := List.all_eq_true.mp h1 _ hdecl
+    simpa using this
+  cases r with
+  | ident x => exact convertVar_sound ⟨lowerInfo evs, known, cur, locals⟩ x sym hres hv hlen
+  | path segs =>
+    have hs2 : 2 ≤ segs.length := Ref.wf_path hwf
+    obtain ⟨hs, hp⟩ := convertQVar_sound ⟨lowerInfo evs, known, cur, locals⟩ segs sym hs2 hres
+    have hr2 : 2 ≤ (resolveQualifiedPath segs segs cur known).1.length := by
+      have := resolveQualifiedPath_length segs cur known; omega
+    cases hg : get? (lowerInfo evs).alias (resolveQualifiedPath segs segs cur known).1 with
+    | none =>
+      rw [aliasChain_of_none _ _ hg] at hs
+      subst hs
+      exact hp hv
+    | some t =>
+      have := List.all_eq_true.mp h2 _ (get?_mem hg)
+      simp only [Bool.or_eq_true, decide_eq_true_eq] at this
+      rcases this with h | h
+      · omega
+      · rw [← hs] at h
+        exact absurd hv h
+
+/-- the class is not empty of re-exports (fixture `module_pub_use.mmm` is in it) and excludes the three witnesses -/
+theorem C17_no_private_route_class_boundary :
+    (visFaithful (events pubUseFixture) && reexportsPublic (events pubUseFixture)) = true ∧
+    noPubUse (events pubUseFixture) = false ∧
+    reexportsPublic (events f12) = false ∧ visFaithful (events f12self) = false ∧
+    visFaithful (events f12wild) = false := by
+  decide +kernel
+
+/-- the visibility written on a `mod` declaration has no effect on anything: flattening drops it
+(`ModuleDefinition { visibility: _, .. }`), so a nested module that is not `pub` can be traversed from outside
+its parent (finding F12-modvis) -/
+theorem C17_module_visibility_ignored (pre : List Name) (p q : Bool) (x : Name) (sub : List Item) :
+    (Item.mod p x sub).events pre = (Item.mod q x sub).events pre := rfl
+
+theorem C17_module_visibility_ignored_witness :
+    resolveRef ⟨lowerInfo (events modvis), knownOf (events modvis), [], []⟩ (.path [1, 2, 4]) = ([1, 2, 4], []) := by
+  decide +kernel
 
 /-! ### every accepted reference resolves to the definition its path denotes -/
 
@@ -199,88 +204,6 @@ theorem C17_resolves_to_denoted_ident_innermost (info : Info) (known : Sym → B
     simp [hf]
   simp [this]
 
-/-- the flat, `$`-mangled name space is the path name space of the tree: the function events of the walk of a
-module tree are exactly its members, reached by walking the path. -/
-inductive Denotes : List Item → List Name → Bool → List Name → Expr → Prop where
-  | here {items : List Item} {pub : Bool} {x : Name} {ps : List Name} {b : Expr} :
-      Item.fn pub x ps b ∈ items → Denotes items [x] pub ps b
-  | inside {items sub : List Item} {mp : Bool} {m : Name} {rest : List Name} {pub : Bool} {ps : List Name} {b : Expr} :
-      Item.mod mp m sub ∈ items → Denotes sub rest pub ps b → Denotes items (m :: rest) pub ps b
-
-mutual
-theorem Item.events_fn_iff (pre : List Name) (it : Item) (pre' : List Name) (pub : Bool) (x : Name)
-    (ps : List Name) (b : Expr) :
-    Ev.fn pre' pub x ps b ∈ it.events pre ↔ ∃ rest, pre' ++ [x] = pre ++ rest ∧ pre'.length + 1 = pre.length + rest.length ∧
-      Denotes [it] rest pub ps b := by
-  cases it with
-  | fn p y qs c =>
-    simp only [Item.events, List.mem_singleton, Ev.fn.injEq]
-    constructor
-    · rintro ⟨rfl, rfl, rfl, rfl, rfl⟩
-      exact ⟨[x], rfl, by simp, .here List.mem_cons_self⟩
-    · rintro ⟨rest, h1, h2, hd⟩
-      cases hd with
-      | here hm =>
-        simp only [List.mem_singleton, Item.fn.injEq] at hm
-        obtain ⟨rfl, rfl, rfl, rfl⟩ := hm
-        have := List.append_inj' h1 rfl
-        simp_all
-      | inside hm _ => simp at hm
-  | use p path t =>
-    simp only [Item.events, List.mem_singleton, reduceCtorEq, false_iff]
-    rintro ⟨rest, _, _, hd⟩
-    cases hd with
-    | here hm => simp at hm
-    | inside hm _ => simp at hm
-  | mod mp m sub =>
-    simp only [Item.events, List.mem_cons, reduceCtorEq, false_or]
-    rw [eventsL_fn_iff]
-    constructor
-    · rintro ⟨rest, h1, h2, hd⟩
-      exact ⟨m :: rest, by simpa using h1, by simp at h2 ⊢; omega, .inside List.mem_cons_self hd⟩
-    · rintro ⟨rest, h1, h2, hd⟩
-      cases hd with
-      | here hm => simp at hm
-      | inside hm hd' =>
-        simp only [List.mem_singleton, Item.mod.injEq] at hm
-        obtain ⟨rfl, rfl, rfl⟩ := hm
-        exact ⟨_, by simpa using h1, by simp at h2 ⊢; omega, hd'⟩
-theorem eventsL_fn_iff (pre : List Name) (items : List Item) (pre' : List Name) (pub : Bool) (x : Name)
-    (ps : List Name) (b : Expr) :
-    Ev.fn pre' pub x ps b ∈ eventsL pre items ↔ ∃ rest, pre' ++ [x] = pre ++ rest ∧ pre'.length + 1 = pre.length + rest.length ∧
-      Denotes items rest pub ps b := by
-  cases items with
-  | nil =>
-    simp only [eventsL, List.not_mem_nil, false_iff]
-    rintro ⟨rest, _, _, hd⟩
-    cases hd with
-    | here hm => simp at hm
-    | inside hm _ => simp at hm
-  | cons it is =>
-    simp only [eventsL, List.mem_append]
-    rw [Item.events_fn_iff, eventsL_fn_iff]
-    constructor
-    · rintro (⟨rest, h1, h2, hd⟩ | ⟨rest, h1, h2, hd⟩)
-      · refine ⟨rest, h1, h2, ?_⟩
-        cases hd with
-        | here hm => exact .here (List.mem_cons.mpr (Or.inl (List.mem_singleton.mp hm)))
-        | inside hm hd' => exact .inside (List.mem_cons.mpr (Or.inl (List.mem_singleton.mp hm))) hd'
-      · refine ⟨rest, h1, h2, ?_⟩
-        cases hd with
-        | here hm => exact .here (List.mem_cons_of_mem _ hm)
-        | inside hm hd' => exact .inside (List.mem_cons_of_mem _ hm) hd'
-    · rintro ⟨rest, h1, h2, hd⟩
-      cases hd with
-      | here hm =>
-        rcases List.mem_cons.mp hm with rfl | hm
-        · exact Or.inl ⟨_, h1, h2, .here List.mem_cons_self⟩
-        · exact Or.inr ⟨_, h1, h2, .here hm⟩
-      | inside hm hd' =>
-        rcases List.mem_cons.mp hm with rfl | hm
-        · exact Or.inl ⟨_, h1, h2, .inside List.mem_cons_self hd'⟩
-        · exact Or.inr ⟨_, h1, h2, .inside hm hd'⟩
-end
-
 /-- **flattening is faithful**: `LetRec pre$x` is emitted for a program exactly when walking the path `pre ++ [x]`
 from the root of the module tree reaches a function `x` with that visibility, parameters and body. -/
 theorem C17_resolves_to_denoted_flatten (p : List Item) (pre : List Name) (pub : Bool) (x : Name)
@@ -294,6 +217,24 @@ theorem C17_resolves_to_denoted_flatten (p : List Item) (pre : List Name) (pub :
     rw [h1]; exact hd
   · intro hd
     exact ⟨pre ++ [x], by simp, by simp, hd⟩
+
+
+/-- a name with a module part passes the resolver's `name_exists` test exactly when walking it as a path from the
+root of the module tree reaches a function — so an accepted, existing qualified reference *is* a definition of
+the tree, found at the place its path says. -/
+theorem C17_resolves_to_denoted_known (p : List Item) (hp : bodiesPlain (events p) = true) (s : Sym)
+    (hs : 2 ≤ s.length) :
+    knownOf (events p) s = true ↔ ∃ pub ps b, Denotes p s pub ps b := by
+  unfold knownOf
+  rw [List.contains_iff_mem, known_multi_iff _ hp s hs, mem_fnDecls_iff]
+  constructor
+  · rintro ⟨pre, pub, x, ps, b, hm, rfl⟩
+    exact ⟨pub, ps, b, (C17_resolves_to_denoted_flatten p pre pub x ps b).mp hm⟩
+  · rintro ⟨pub, ps, b, hd⟩
+    have hne := hd.ne_nil
+    refine ⟨s.dropLast, pub, s.getLast hne, ps, b, ?_, List.dropLast_concat_getLast hne⟩
+    rw [C17_resolves_to_denoted_flatten, List.dropLast_concat_getLast hne]
+    exact hd
 
 /-- uniqueness: if no mangled name is declared twice, a mangled name has one declaration (hence one visibility) -/
 theorem C17_resolves_to_denoted_unique (evs : List Ev) (hnd : ((fnDecls evs).map (·.1)).Nodup) (sym : Sym)
@@ -309,17 +250,6 @@ theorem C17_resolves_to_denoted_unique (evs : List Ev) (hnd : ((fnDecls evs).map
 theorem C17_local_shadows_import_var (c : RCtx) (s : Sym) (h : c.isLocallyBound s = true) :
     convertVar c s = (s, []) := by
   simp [convertVar, h]
-
-/-- every identifier of `e` is bound by an enclosing binder of `e` or by the scope stack `ls` -/
-def closedUnder : List (List Sym) → Expr → Bool
-  | _, .unit => true
-  | _, .lit _ => true
-  | ls, .var s => ls.any (fun sc => sc.contains s)
-  | _, .qvar _ => false
-  | ls, .call f => closedUnder ls f
-  | ls, .letE x e t => closedUnder ls e && closedUnder ([[x]] :: ls) t
-  | ls, .lam ps b => closedUnder (ps.map (fun p => [p]) :: ls) b
-  | ls, .letrec f e t => closedUnder ([f] :: ls) e && closedUnder ([f] :: ls) t
 
 /-- **local bindings shadow imports**: an expression all of whose identifiers are lexically bound (by `let`,
 `letrec`, lambda parameters, or the enclosing scopes) passes through resolution unchanged and without error —
@@ -352,6 +282,15 @@ theorem C17_local_shadows_import (info : Info) (known : Sym → Bool) (e : Expr)
     intro cur ls h
     simp only [closedUnder, Bool.and_eq_true] at h
     simp [convertExpr, ihe _ _ h.1, iht _ _ h.2]
+
+/-! ### adequacy of the model's loop bound -/
+
+/-- `resolve_alias_chain` is a `while` loop over a visited set; the model runs it with fuel `|alias map| + 2`.
+That bound is never the reason the loop stops: any larger fuel gives the same result. -/
+theorem C17_model_alias_chain_fuel_enough (alias : List (Sym × Sym)) (s : Sym) (fuel : Nat)
+    (h : alias.length + 2 ≤ fuel) : aliasChainGo alias fuel [] s = aliasChain alias s := by
+  obtain ⟨d, rfl⟩ := Nat.exists_eq_add_of_le h
+  exact aliasChainGo_add alias _ d [] s (by have := keysLeft_le alias []; omega)
 
 /-! ### non-vacuity -/
 
